@@ -785,6 +785,12 @@ pub fn persisted_superset(d: &Driver, p: Option<usize>, b: usize, obs: &Obs) -> 
         // records appended to this name since its last deletion at or before P
         let start = (0..lo.min(n)).rev().find(|&i| matches!(&d.steps[i].op, Op::Delete { q: dq } if *dq == q) && !d.steps[i].expected.is_err()).map(|i| i + 1).unwrap_or(0);
         let mut allowed: BTreeSet<Rec> = BTreeSet::new();
+        // a driver that adopted a recovered log starts from a non-empty state
+        if start == 0 {
+            if let Some(q0) = d.models[0].queues.get(name) {
+                allowed.extend(q0.recs.iter().copied());
+            }
+        }
         for s in d.steps.iter().take(hi + 1).skip(start) {
             if let (Op::Append { q: aq, lens, uid, .. }, Outcome::Appended { last: Some(last), .. }) = (&s.op, &s.expected) {
                 if *aq == q {
@@ -831,6 +837,72 @@ pub fn test_c03(d: &Driver, case: &Case, b: usize, image: &Image, level: Level, 
     }
 }
 
+/// "Whatever was buffered, rolled over or garbage-collected afterwards": recover from `image`, keep
+/// working on the recovered log (same policy), and crash again after every continuation op; each
+/// second recovery must contain everything that was on disk at the first recovery or persisted since.
+pub fn test_c03_continue(d: &Driver, case: &Case, b: usize, image: &Image, cont: Cont, where_: &str) -> (Vec<Failure>, Vec<Op>) {
+    let n = d.steps.len();
+    let policy = if b < n { d.steps[b].policy } else { d.steps.last().map(|s| s.policy).unwrap_or(case.policy) };
+    let mut failures = Vec::new();
+    let Ok((w, obs)) = recover(image, &d.names, policy, &case.knobs) else { return (failures, Vec::new()) };
+    let mut model = d.models[b.min(n)].clone();
+    model.rebase(&obs);
+    let mut cd = Driver::adopt(w, model, case.probe_seed ^ 0xC03C ^ b as u64);
+    cd.light = true;
+    let planned: Vec<Op> = match cont {
+        Cont::Explicit(ops) => ops.to_vec(),
+        Cont::Generate(_) => Vec::new(),
+    };
+    let mut gen = if let Cont::Generate(seed) = cont {
+        let mut rng = Rng::new(seed);
+        let mut cfg = crate::gen::swarm(&mut rng, Profile::AllPolicies);
+        cfg.n_queues = cd.names.len();
+        cfg.w = [10, 3, 40, 10, 12, 0, 3, 0];
+        let mut g = Gen::new(cfg, rng.fork(3));
+        g.next_uid = 600_000 + (seed as u32 % 1000) * 50;
+        Some((g, 3 + (seed % 4) as usize))
+    } else {
+        None
+    };
+    let mut used: Vec<Op> = Vec::new();
+    let mut k = 0usize;
+    loop {
+        let op = match &mut gen {
+            Some((g, count)) => {
+                if k >= *count { break; }
+                g.next(&cd)
+            }
+            None => match planned.get(k) {
+                Some(op) => op.clone(),
+                None => break,
+            },
+        };
+        k += 1;
+        cd.step(op.clone());
+        used.push(op);
+        if cd.stopped {
+            break; // the continuation itself misbehaves: C02's business, no C03 verdict from here on
+        }
+        // process crash right after this call returned
+        let img2 = cd.world.image();
+        let done = cd.steps.len();
+        let p = persist_point(&cd, done, Level::Proc);
+        match recover(&img2, &cd.names, cd.world.policy, &case.knobs) {
+            Err((e, _)) => {
+                failures.push(fail("C03", "open-failed-after-second-crash", b, format!("{where_}, recovery, then {} more calls and a second crash: {}", done, open_fail_text(&e))));
+                break;
+            }
+            Ok((_w2, obs2)) => {
+                if let Some((clause, msg)) = persisted_superset(&cd, p, done, &obs2) {
+                    failures.push(fail("C03", &format!("{clause}-after-second-crash"), b, format!("{where_}, recovery, then {} more calls ({}) and a second crash (persist point in the continuation: {:?}): {msg}", done, used.iter().map(|o| o.short()).collect::<Vec<_>>().join(", "), p)));
+                    break;
+                }
+            }
+        }
+    }
+    (failures, used)
+}
+
 // ------------------------------------------------------------------ replay entry point
 
 pub fn evaluate_crash(prop: &str, case: &Case, fault: &Fault) -> Vec<Failure> {
@@ -858,6 +930,10 @@ pub fn evaluate_crash(prop: &str, case: &Case, fault: &Fault) -> Vec<Failure> {
             };
             let (f, _) = test_c03(&d, case, b, &image, level, &where_);
             out.extend(f);
+            if !cont.is_empty() {
+                let (f2, _) = test_c03_continue(&d, case, b, &image, Cont::Explicit(cont), &where_);
+                out.extend(f2);
+            }
         }
         "C12" if at.powerloss.is_some() => {
             let image = {
